@@ -42,3 +42,8 @@ reg('C03', 'model_checking', 'H (explicit-state, inductive invariant over all st
     'All states (pointee type, address) of a 64 KiB foreign-ABI sandbox plus null are enumerated and every pointer-producing operation is executed from each of them; each successor must be null or inside the own region or the step must abort. All 2^16 guest representations are driven through nine pointer-carrying positions (all 2^32 through the cell position in the thorough tier), plus allocation answers and app pointers, with two instances live.',
     'Explores a superset of the reachable states (every state satisfying the invariant). Membership is mbox\'s region; production backends with smaller committed memory are represented by the 32-bit instance only.',
     'DESIGN.md section 3, C03')
+
+reg('C04', 'model_checking', 'X + H (input enumerator + history explorer)', 'bounded exhaustive enumeration of offsets/positions + exhaustive create/destroy histories on the real code',
+    'Every offset of a 64 KiB sandbox and null goes through both translation paths and twenty pointer-carrying positions with the guest-side bytes inspected; all create/destroy histories of three sandbox objects up to depth 5/7 (all 16 ordered live-lists) are executed and in each state every live instance must translate data and function pointers relative to itself, in mask mode and in registry mode (unaligned region, RLBox\'s own finder on the hot path).',
+    'Three instances; offset 0 (representation 0 = null) excluded from the address round trip; the 32-bit instance is covered on a boundary lattice.',
+    'DESIGN.md section 3, C04')
